@@ -490,7 +490,7 @@ impl Prop for C13 {
     }
 
     fn gen(&self, tier: Tier, rng: &mut Rng) -> Vec<Case> {
-        let scale = if tier == Tier::Quick { 1 } else { 30 };
+        let scale = if tier == Tier::Quick { 3 } else { 30 };
         let mut out = vec![];
         // hand-picked shapes first
         let fixed: &[&str] = &[
